@@ -71,7 +71,7 @@ var denyPkgs = []string{
 	"github.com/tendermint/go-amino", "encoding/json", "reflect", "github.com/tendermint/iavl",
 	"github.com/syndtr/goleveldb", "net", "os", "crypto/", "golang.org/x/crypto",
 	"github.com/btcsuite", "regexp", "fmt", "log", "runtime", "syscall", "github.com/tendermint/tendermint/rpc",
-	"github.com/tendermint/tendermint/node", "github.com/tendermint/tendermint/libs/log", "github.com/gogo/protobuf", "github.com/golang/protobuf",
+	"github.com/tendermint/tendermint/node", "github.com/gogo/protobuf", "github.com/golang/protobuf",
 	"gopkg.in/yaml", "text/", "math/big", "bufio", "io/ioutil", "github.com/tendermint/tendermint/p2p", "math/rand", "github.com/tendermint/tendermint/libs/common",
 }
 
